@@ -4,7 +4,11 @@
 
 package trend
 
-import "github.com/cinar/indicator/v2/helper"
+import (
+	"math"
+
+	"github.com/cinar/indicator/v2/helper"
+)
 
 // MovingMin represents the configuration parameters for calculating the
 // Moving Min over the specified period.
@@ -37,12 +41,15 @@ func (m *MovingMin[T]) Compute(c <-chan T) <-chan T {
 	filled := 0
 
 	mins := helper.Operate(cs[0], cs[1], func(c, b T) T {
-		bst.Insert(c)
+		// A NaN cannot be ordered: it is kept out of the tree, which would never release it.
+		if !math.IsNaN(float64(c)) {
+			bst.Insert(c)
+		}
 
 		// The first Period values of the shifted stream are fill values, not elements of the window.
 		if filled < m.Period {
 			filled++
-		} else {
+		} else if !math.IsNaN(float64(b)) {
 			bst.Remove(b)
 		}
 
